@@ -62,6 +62,9 @@ func vC20Run(k *vKit, c vSx) (obs vSx, failOracle, failDetail string, nontrivial
 	mk(0)
 	sh := []*vShadowWin{{ival: 10e9}, {ival: 30e9}, {ival: 300e9}}
 	fired := map[int]bool{}
+	var avgInit bool
+	var avgT int64
+	var avgC uint64
 	special := false
 	var out []vSx
 	bad := func(o, d string) {
@@ -77,6 +80,8 @@ func vC20Run(k *vKit, c vSx) (obs vSx, failOracle, failDetail string, nontrivial
 		switch op.l[0].i64() {
 		case 0:
 			mk(op.l[1].int())
+			avgInit = false
+			sh = []*vShadowWin{{ival: 10e9}, {ival: 30e9}, {ival: 300e9}}
 			out = append(out, vL(vZ(0)))
 		case 1:
 			t, cnt := op.l[1].i64(), op.l[2].u64()
@@ -118,6 +123,33 @@ func vC20Run(k *vKit, c vSx) (obs vSx, failOracle, failDetail string, nontrivial
 			out = append(out, vL(vZ(2), vU(math.Float64bits(a))))
 			if math.IsNaN(a) || math.IsInf(a, 0) || a < 0 {
 				bad("finite-nonneg", fmt.Sprintf("average reports %v", a))
+			}
+			// statement: total increase over the time since the first non-zero observation
+			// (millisecond resolution allowed: relative slack of one millisecond of the elapsed time)
+			if cnt != 0 {
+				if !avgInit {
+					avgInit, avgT, avgC = true, t, cnt
+					if a != 0 {
+						bad("average", fmt.Sprintf("first non-zero observation reports %v, want 0", a))
+					}
+				} else {
+					inc := int64(cnt - avgC)
+					el := t - avgT
+					switch {
+					case inc <= 0 || el < 1000000:
+						if a != 0 {
+							bad("average", fmt.Sprintf("increase %d over %d ns reports %v, want 0", inc, el, a))
+						}
+					default:
+						want := float64(inc) / (float64(el) / 1e9)
+						slack := want*(1.01e6/float64(el)) + 1e-9*want
+						if math.Abs(a-want) > slack {
+							bad("average", fmt.Sprintf("increase %d over %d ns reports %v, statement gives %v", inc, el, a, want))
+						}
+					}
+				}
+			} else if a != 0 {
+				bad("average", fmt.Sprintf("zero counter reports %v", a))
 			}
 		case 3:
 			imp.started = true
